@@ -432,8 +432,48 @@ def k1_probes(dump, rnd, per_id, n_junk):
     return probes
 
 
-def coq_header(dumps):
+def strings_in(v, acc):
+    if isinstance(v, str):
+        acc.add(v)
+    elif isinstance(v, list):
+        for x in v:
+            strings_in(x, acc)
+    elif isinstance(v, dict):
+        for k, x in v.items():
+            acc.add(k)
+            strings_in(x, acc)
+    return acc
+
+
+def patterns_in(dumps):
+    pats = set()
+    for d in dumps:
+        for e in d["entries"].values():
+            if e.get("kind") == "newtype" and e["constraints"]["k"] == "string" and e["constraints"]["pattern"] is not None:
+                pats.add(e["constraints"]["pattern"])
+    return pats
+
+
+def re_table(dumps, values):
+    """the model's `re` parameter as a finite table computed by the REAL regress crate (harness bin c06)"""
+    pats = sorted(patterns_in(dumps))
+    strs = set()
+    for v in values:
+        strings_in(v, strs)
+    pairs = [[p, s] for p in pats for s in sorted(strs)]
+    if not pairs:
+        return []
+    r = vlib.run_bin("c06", [{"re_pairs": pairs}])[0]
+    return [(p, s, b) for (p, s), b in zip(pairs, r["re"])]
+
+
+def coq_header(dumps, retab=()):
     h = [tocoq.COQ_HEADER, "From Typify Require Import Algo.Defaults Algo.Value.\n"]
+    h.append("Definition re_tab : list (ustring * ustring * bool) := %s.\n" % tocoq.clist(
+        retab, lambda t: "(%s, %s, %s)" % (tocoq.ustr(t[0]), tocoq.ustr(t[1]), tocoq.cbool(t[2])),
+        "(ustring * ustring * bool)"))
+    h.append("Definition re_fn (p s : ustring) : bool := match find (fun '(a, b, _) => ustr_eqb a p && ustr_eqb b s) "
+             "re_tab with Some (_, _, r) => r | None => false end.\n")
     for i, d in enumerate(dumps):
         h.append("Definition T%d : space := %s.\n" % (i, tocoq.cspace(d)))
     return "".join(h)
@@ -477,14 +517,15 @@ def run_k1(ctx, spaces, per_id, n_junk, tag="c06k1"):
             iv, io = impl_line(p)
             recs.append({"space": si, "id": tid, "kind": dumps[si]["entries"][str(tid)]["kind"], "value": v,
                          "impl_v": iv, "impl_o": io})
-            exprs.append("probe T%d %d %d%%N %s" % (si, FUEL, tid, tocoq.cjson(v)))
-    model = vlib.coq_eval_strings(tag + ctx.tier[0], coq_header(dumps), exprs, shard=120)
+            exprs.append("probe re_fn T%d %d %d%%N %s" % (si, FUEL, tid, tocoq.cjson(v)))
+    retab = re_table(dumps, [p[1] for c in cases for p in c["probes"]])
+    model = vlib.coq_eval_strings(tag + ctx.tier[0], coq_header(dumps, retab), exprs, shard=120)
     mism = []
     for rec, line in zip(recs, model):
         m = model_fields(line)
         rec["model"] = m
-        if MUT == "model-string-strict" and rec["kind"] == "string" and not isinstance(rec["value"], str):
-            m[0] = "err"
+        if MUT == "model-string-lax" and rec["kind"] == "string" and not isinstance(rec["value"], str):
+            m[0] = "ok:Specific"    # the model as it was before fix 9891d21
         if m[0] != rec["impl_v"] or m[1] != rec["impl_o"]:
             mism.append(rec)
     return recs, mism, dumps
@@ -804,6 +845,10 @@ def run_k5(ctx, cases, name=None):
             rec["viol"].append({"kind": "render-panic" if rec["render"] == "render-panic" else "render-" + str(rec["render"]),
                                 "msg": g.get("render", {}).get("msg", "")[:160]})
             continue
+        if MUT == "impl-tuple1-uncompilable" and m["kind"] == "tuple1" and valid[i] and add == "ok":
+            # emulation: the recorded implementation answer of the FIXED class F2 comes back
+            rec["viol"].append({"kind": "uncompilable", "errors": [["E0308", "mismatched types (emulated)"]]})
+            continue
         if w.status[i] == "compile-error":
             rec["viol"].append({"kind": "uncompilable", "errors": w.compile_errors.get(i, [])[:3]})
             continue
@@ -860,7 +905,7 @@ def run_k5(ctx, cases, name=None):
 
 
 # ------------------------------------------------------------------ classification of violations
-FLAG_NAMES = ["f1", "unit", "tuple1", "intoob", "nz0", "flit", "native", "fill", "emptyctor"]
+FLAG_NAMES = ["unit", "tuple1", "intoob", "nz0", "flit", "native", "fill", "emptyctor"]
 
 
 def default_site(rec, gen):
@@ -929,23 +974,11 @@ def classify(rec, gen, flags):
         return None
     fl = dict(zip(FLAG_NAMES, [c == "T" for c in flags]))
     ents = gen["dump"]["entries"]
-    if fl["f1"] and kinds <= {"render-panic", "uncompilable", "builder-chunk-uncompilable"} and not rec["valid"]:
-        return "C06-F1"
-    if fl["unit"] and kinds == {"render-panic"}:
-        return "C06-F4"
-    if fl["flit"] and kinds == {"render-unparsable"}:
-        return "C06-F8"
-    if fl["tuple1"] and kinds <= {"uncompilable", "builder-chunk-uncompilable"}:
-        return "C06-F2"
-    if fl["intoob"] and kinds <= {"uncompilable", "builder-chunk-uncompilable"} and not rec["valid"]:
-        return "C06-F5"
-    if fl["nz0"] and kinds == {"runtime-panic"} and not rec["valid"]:
-        return "C06-F6"
+    # classes F1-F6 and F8 are FIXED (findings/C06.json "fixed"): they are deliberately not recognised here, so a
+    # reproduction is reported as a VIOLATION
     if fl["native"] and kinds == {"runtime-panic"} and not rec["valid"]:
         return "C06-F7"
     if kinds <= {"realised-invalid", "invalid-accepted"} and not rec["valid"]:
-        if violates_constraints(strip_wrappers(ents, site[0]), site[1]):
-            return "C06-F3"
         tgt = schema
         if "$ref" in tgt:
             tgt = ALL_DEFS[tgt["$ref"].split("/")[-1]]
@@ -984,16 +1017,14 @@ def flags_for(ctx, recs, w, tag="c06cls"):
 # ------------------------------------------------------------------ the check
 THEOREMS = [
     "C06_validate_implies_output",
-    "C06_validate_implies_output_refuted",
-    "C06_unit_default_render_refuted",
-    "C06_default_typed_tuple1_refuted",
-    "C06_default_typed_int_range_refuted",
-    "C06_default_typed_flatten_refuted",
-    "C06_default_exact_nonzero_refuted",
-    "C06_invalid_rejected_newtype_refuted",
     "C06_invalid_rejected_scalar",
+    "C06_string_default_is_string",
+    "C06_newtype_default_checked",
+    "C06_integer_default_fits",
+    "C06_unit_null_optional",
     "C06_default_typed_partial",
     "C06_default_exact_partial",
+    "C06_regression_examples",
 ]
 CORPUS = os.path.join(vlib.ROOT, "corpus", "C06", "witnesses.json")
 
@@ -1004,8 +1035,11 @@ def run(ctx):
                        "harness bin c06 + py/world.py driver crates; python jsonschema Draft7 as instance oracle")
     ctx.trusted = [
         "Coq 8.16.1 kernel + vm_compute",
-        "hand-written models Algo/Defaults.v (defaults.rs:143-630) and Algo/Value.v (value.rs:25-447, defaults.rs:327-377), "
-        "tied every run by K1 on (type id, JSON value) probes: verdict, DefaultKind and full token text",
+        "hand-written models Algo/Defaults.v (defaults.rs validate_value.. all_props, integer_fits) and Algo/Value.v "
+        "(value.rs output_value.., defaults.rs default_fn), tied every run by K1 on (type id, JSON value) probes: verdict, "
+        "DefaultKind and full token text",
+        "the regex engine is a parameter `re` of the model (theorems hold for every function); K1 instantiates it with a "
+        "table computed by the real regress crate through harness bin c06",
         "py/tocoq.py (dump -> Gallina space, JSON -> json), harness/src/bin/c06.rs token flattener, "
         "c06.canon_tokens (literal/JSON-text normalisation)",
         "expr_typed / eval_expr are MODELS of rustc typing and serde serialisation (validated against the compiled world: "
@@ -1041,10 +1075,9 @@ def run(ctx):
         dist[key] = dist.get(key, 0) + 1
         ctx.nontrivial.add("k1:%d:%d:%s" % (r["space"], r["id"], json.dumps(r["value"], sort_keys=True)))
         # theorem instance on the REAL hooks: validation ok => output_value is Some, outside class F1
-        fl = r["model"][5] if len(r["model"]) > 5 else "?" * 9
-        if r["impl_v"].startswith("ok") and r["impl_o"] in ("none", "panic") and not fl.startswith("T"):
+        if r["impl_v"].startswith("ok") and r["impl_o"] in ("none", "panic"):
             thm_viol.append(r)
-    ctx.oblige("C06_validate_implies_output holds on the real hooks for every K1 pair outside class F1", not thm_viol,
+    ctx.oblige("C06_validate_implies_output holds on the real hooks for every K1 pair", not thm_viol,
                json.dumps([{k: m[k] for k in ("space", "id", "kind", "value", "impl_v", "impl_o")} for m in thm_viol[:3]]))
     ctx.coverage["k1_pairs"] = len(recs1)
     ctx.coverage["k1_mismatches"] = len(mism)
@@ -1079,7 +1112,7 @@ def run(ctx):
             continue
         if not rec["viol"]:
             continue
-        fid = classify(rec, w.gen[rec["i"]], flags.get(rec["i"], "F" * 9))
+        fid = classify(rec, w.gen[rec["i"]], flags.get(rec["i"], "F" * len(FLAG_NAMES)))
         if MUT == "forget-findings":
             fid = None
         if fid and fid in listed:
@@ -1142,10 +1175,11 @@ def model_vs_world(ctx, recs, w, tag="c06mw"):
             dmap[key] = len(dumps)
             dumps.append(g["dump"])
         idx.append(rec)
-        exprs.append("probe T%d %d %d%%N %s" % (dmap[key], FUEL, site[0], tocoq.cjson(site[1])))
+        exprs.append("probe re_fn T%d %d %d%%N %s" % (dmap[key], FUEL, site[0], tocoq.cjson(site[1])))
     if not exprs:
         return 0, []
-    res = vlib.coq_eval_strings(tag + ctx.tier[0], coq_header(dumps), exprs, shard=120)
+    retab = re_table(dumps, [default_site(rec, w.gen[rec["i"]])[1] for rec in idx])
+    res = vlib.coq_eval_strings(tag + ctx.tier[0], coq_header(dumps, retab), exprs, shard=120)
     bad = []
     for rec, line in zip(idx, res):
         m = model_fields(line)
